@@ -434,6 +434,64 @@ def one_member_tuple_text_form(ctx):
               "a tuple with a single member is written as '(1)', which literal_eval reads as the int 1: from_string(to_string(v)) is refused", f)
 
 
+def _enum_lookups(funcnode):
+    """member look-ups of an EnumType method: `self._enum(k)`, `self(k)`, `self._enum[k]`, `self._enum.get(k)`"""
+    out = []
+    for n in body_walk(funcnode):
+        if isinstance(n, ast.Call) and src(n.func) in ('self._enum', 'self', 'self._enum.get', 'self._enum.__getitem__') and n.args:
+            out.append(n)
+        elif isinstance(n, ast.Subscript) and src(n.value) == 'self._enum' and isinstance(n.ctx, ast.Load):
+            out.append(n)
+    return out
+
+
+def _lookup_key(n):
+    return n.args[0] if isinstance(n, ast.Call) else n.slice
+
+
+@rule('C02.R6e', min_instances=1)
+def enum_member_is_never_tested_by_truth(ctx):
+    """an EnumMember is falsy when its code is 0 (EnumMember.__bool__): the result of a member look-up is tested by identity
+    / exception, never by its truth value (`lookup(text) or fallback` discards the member with code 0)"""
+    m = ctx.m
+    ci = _cls(m, 'EnumType')
+    mem = m.classes.get('frappy.lib.enum.EnumMember')
+    if mem is None:
+        raise AnchorMissing('frappy.lib.enum.EnumMember not found')
+    if '__bool__' not in mem.methods and '__len__' not in mem.methods:
+        ctx.ok(f'{ci.qualname}:members are truthy', None, 'EnumMember defines neither __bool__ nor __len__')
+        return
+    from sa.rules.common import _in_test_position
+    n = 0
+    for name, f in sorted(ci.methods.items()):
+        looks = _enum_lookups(f.node)
+        if not looks:
+            continue
+        ctx.analysed(f)
+        carriers = set()
+        for lk in looks:
+            par = getattr(lk, 'parent', None)
+            if isinstance(par, ast.Assign) and par.value is lk and len(par.targets) == 1 and isinstance(par.targets[0], ast.Name):
+                carriers.add(par.targets[0].id)
+        for x in body_walk(f.node):
+            hit = (x in looks) or (isinstance(x, ast.Name) and isinstance(x.ctx, ast.Load) and x.id in carriers)
+            if not hit:
+                continue
+            n += 1
+            par = getattr(x, 'parent', None)
+            truth = (isinstance(par, ast.BoolOp) and (x is not par.values[-1] or _in_test_position(par))) or \
+                (isinstance(par, ast.UnaryOp) and isinstance(par.op, ast.Not)) or \
+                (isinstance(par, (ast.If, ast.IfExp, ast.While)) and par.test is x)
+            key = f'{f.qualname}:looked up member not tested by truth value'
+            if truth:
+                ctx.bad(key, enclosing_stmt(x), f'`{src(enclosing_stmt(x)).splitlines()[0]}` decides by the truth value of the looked up member: '
+                        'the member with code 0 is falsy (EnumMember.__bool__), it is treated as "no such member" - its text form is not accepted back', f)
+            else:
+                ctx.ok(key, x, 'used as a value / tested by identity', f)
+    if not n:
+        raise AnchorMissing('no member look-up found in EnumType')
+
+
 @rule('C02.R6d', min_instances=1)
 def enum_text_is_the_member_name_first(ctx):
     """EnumType: to_string is the member NAME, so from_string has to try the text as a name before it tries it as a
@@ -452,8 +510,7 @@ def enum_text_is_the_member_name_first(ctx):
     cfg = CFG(fs.node, m, fs.module)
     tp = fs.node.args.args[1].arg
     lit = [c for c in calls_in(fs.node) if (call_attr(c) == 'from_string' and 'super()' in src(c.func)) or call_attr(c) == 'literal_eval']
-    byname = [c for c in calls_in(fs.node) if src(c.func) in ('self._enum', 'self') and c.args and
-              any(isinstance(x, ast.Name) and x.id == tp for x in ast.walk(c.args[0]))]
+    byname = [c for c in _enum_lookups(fs.node) if tp in names_in(resolved(_lookup_key(c), fs.node))]
     if not byname:
         ctx.bad(f'{fs.qualname}:name lookup before literal evaluation', fs.node, 'from_string never looks the text up as a member name: '
                 'the text form offered by to_string (the bare name) is not accepted back', fs)
